@@ -2280,6 +2280,7 @@ class QuicConnection:
             )
 
         # process data
+        was_finished = stream.receiver.is_finished
         try:
             event = stream.receiver.handle_frame(frame)
         except FinalSizeError as exc:
@@ -2288,7 +2289,9 @@ class QuicConnection:
                 frame_type=frame_type,
                 reason_phrase=str(exc),
             )
-        if event is not None:
+        # a frame for a receive half which already finished is a retransmission,
+        # the end of the stream must only be signalled once
+        if event is not None and not was_finished:
             self._events.append(event)
         self._local_max_data.used += newly_received
 
